@@ -418,32 +418,7 @@ func runC02(c *Ctx) {
 				c.Check("C02-R5", f.Key()+" expiry branch: unload events == unloads on every path", "exit of the expiry branch", mu == exC[l] && (mu == 1 || mu == 2), "masks: events="+itoa(int(mu))+" unloads="+itoa(int(exC[l])))
 			}
 		}
-		for _, d := range dels {
-			dc := d.Node.(*ast.CallExpr)
-			ok := false
-			var unloaded core.Path
-			for _, u := range unl {
-				if g.Dominates(u.Loc, d.Loc) {
-					unloaded = core.PathOf(info, u.Node.(*ast.CallExpr).Fun.(*ast.SelectorExpr).X)
-				}
-			}
-			for _, a := range g.AtomsAt(d.Loc) {
-				be, isB := ast.Unparen(a.Expr).(*ast.BinaryExpr)
-				if !isB || be.Op != token.EQL || !a.Val {
-					continue
-				}
-				for _, pair := range [][2]ast.Expr{{be.X, be.Y}, {be.Y, be.X}} {
-					ix, isIx := ast.Unparen(pair[0]).(*ast.IndexExpr)
-					if !isIx || core.FieldVar(info, ix.X) != m.fLoaded {
-						continue
-					}
-					if p := core.PathOf(info, pair[1]); p.Valid() && unloaded.Valid() && p.Key() == unloaded.Key() && core.ExprString(ix.Index) == core.ExprString(dc.Args[1]) {
-						ok = true
-					}
-				}
-			}
-			c.Check("C02-R9", f.Key()+" delete:loaded by identity", c.Pos(dc), ok, "expiry events are not unique per runner (timer, retry goroutine, expireRunner, eviction, finish branch): an unconditional delete keyed by model path lets a stale event for R1 remove the entry of its successor R2")
-		}
+		ruleDeleteByIdentity(c, m, "C02-R9")
 	}
 
 	// ------------------------------------------------------------------ R6
